@@ -5,6 +5,7 @@ package sm3_test
 // GB/T 32905, anchored to the standard's vectors) over the model.
 
 import (
+	"bufio"
 	"bytes"
 	"encoding/hex"
 	"encoding/json"
@@ -14,6 +15,7 @@ import (
 	"os"
 	"path/filepath"
 	"strconv"
+	"strings"
 	"syscall"
 	"testing"
 
@@ -106,11 +108,19 @@ func TestVerif_C04_History(t *testing.T) {
 				hist = append(hist, 'w', byte(n), byte(n>>8))
 			},
 			"iocopy": func(t *rapid.T) {
+				// the standard library's ways of feeding a Writer. Several of them look for OPTIONAL interfaces on the destination
+				// (io.StringWriter, io.ReaderFrom, io.ByteWriter) and use those instead of Write; whatever the hash implements must
+				// consume exactly the bytes given. Content: random bytes or text (multi-byte UTF-8: ids are often names).
 				n := gen.Int(t, "n", 1, 200)
 				chunk := gen.RandBytes(r, n)
-				cn, err := io.Copy(h, bytes.NewReader(chunk))
-				if err != nil || int(cn) != n {
-					vt.Fail(t, rec, "C04:write:return", "io.Copy(hash, %d bytes) = (%d, %v): Write does not report the bytes it consumed", n, cn, err)
+				if gen.Bool(t, "text") {
+					chunk = c04Text(r, n)
+					n = len(chunk)
+				}
+				mode := gen.Pick(t, "via", "copy-bytes-reader", "copy-strings-reader", "writestring", "multiwriter-string", "bufio-string", "fprintf", "copy-plain-reader", "optional-interfaces")
+				cn, err := c04Deliver(h, chunk, mode)
+				if err != nil || cn != n {
+					vt.Fail(t, rec, "C04:write:return", "%s of %d bytes into the hash = (%d, %v): the hash does not report the bytes it consumed", mode, n, cn, err)
 				}
 				if sumSeen {
 					writeAfterSum = true
@@ -118,8 +128,9 @@ func TestVerif_C04_History(t *testing.T) {
 				if (len(model)%64)+n > 64 {
 					straddle = true
 				}
+				rec.Tally("via:" + mode)
 				model = append(model, chunk...)
-				hist = append(hist, 'c', byte(n))
+				hist = append(hist, 'c', byte(n), mode[0], mode[len(mode)-1])
 			},
 			"sum": func(t *rapid.T) {
 				pl := gen.Int(t, "prefixLen", 0, 40)
@@ -460,7 +471,6 @@ func TestVerif_C04_StateWordCorpus(t *testing.T) {
 	})
 }
 
-
 // The 32-bit build (GOARCH=386): lengths at which a byte or bit count no longer fits a 32-bit int. One Write of 2^28-1, 2^28 and
 // 2^28+65 zero bytes (the bit length reaches 2^31) in both tiers; in the thorough tier 2^31+60 and 2^31+67 bytes streamed in 1 MiB
 // Writes through ONE hash value with Sums on the way (the byte count passes 2^31). Zero pages; OpenSSL digests.
@@ -551,5 +561,64 @@ func TestVerif_C04_LongZero32Bit(t *testing.T) {
 			vt.Fail(t, rec, "C04:sum:digest", "32-bit build: digest after %d zero bytes streamed through one hash value differs from OpenSSL\n got %s\nwant %s", n, got, w)
 			return
 		}
+	}
+}
+
+// c04Text returns about n bytes of text mixing ASCII with 2-, 3- and 4-byte UTF-8 sequences.
+func c04Text(r interface{ Intn(int) int }, n int) []byte {
+	pool := []string{"a", "Z", "0", "@", ".", " ", "é", "ß", "Ж", "张", "三", "哔", "哩", "用", "户", "€", "𝔘", "😀"}
+	var b []byte
+	for len(b) < n {
+		b = append(b, pool[r.Intn(len(pool))]...)
+	}
+	return b
+}
+
+type c04PlainReader struct{ r io.Reader } // hides WriterTo, so that io.Copy looks for ReaderFrom on the destination
+
+func (p c04PlainReader) Read(b []byte) (int, error) { return p.r.Read(b) }
+
+// c04Deliver feeds chunk into w by one of the standard library's routes and returns the number of bytes the route reports.
+func c04Deliver(w io.Writer, chunk []byte, mode string) (int, error) {
+	switch mode {
+	case "copy-bytes-reader":
+		n, err := io.Copy(w, bytes.NewReader(chunk))
+		return int(n), err
+	case "copy-strings-reader":
+		n, err := io.Copy(w, strings.NewReader(string(chunk)))
+		return int(n), err
+	case "writestring":
+		return io.WriteString(w, string(chunk))
+	case "multiwriter-string":
+		return io.WriteString(io.MultiWriter(w, io.Discard), string(chunk))
+	case "bufio-string":
+		bw := bufio.NewWriterSize(w, 16)
+		n, err := bw.WriteString(string(chunk))
+		if err == nil {
+			err = bw.Flush()
+		}
+		return n, err
+	case "fprintf":
+		return fmt.Fprintf(w, "%s", chunk)
+	case "copy-plain-reader":
+		n, err := io.CopyBuffer(w, c04PlainReader{bytes.NewReader(chunk)}, make([]byte, 7))
+		return int(n), err
+	default: // whatever optional interface the destination has, used directly; Write otherwise
+		if sw, ok := w.(io.StringWriter); ok && len(chunk)%3 == 0 {
+			return sw.WriteString(string(chunk))
+		}
+		if rf, ok := w.(io.ReaderFrom); ok && len(chunk)%3 == 1 {
+			n, err := rf.ReadFrom(c04PlainReader{bytes.NewReader(chunk)})
+			return int(n), err
+		}
+		if bw, ok := w.(io.ByteWriter); ok {
+			for i, c := range chunk {
+				if err := bw.WriteByte(c); err != nil {
+					return i, err
+				}
+			}
+			return len(chunk), nil
+		}
+		return w.Write(chunk)
 	}
 }
